@@ -7,7 +7,7 @@
    from the firmware without a diagnostic.
 
    [allowed]    = that fixed set.
-   [known_gaps] = the (kind, context) pairs that the unchanged tree silently drops although they
+   [known_gaps] = the (kind, context) pairs that the current tree silently drops although they
                   are not in the fixed set: each kind listed there is a genuine finding of C07
                   (known_findings.d/C07.json has one entry per kind, with the witness script).
    [pinned]     = what the supported subset must do (so that a mutation that starts rejecting or
@@ -228,9 +228,10 @@ Definition gap_kinds : list stmt_kind :=
    K_yield_stmt; K_await_stmt; K_semicolon_join; K_backslash_continuation;
    K_bracket_continuation; K_if_inline_body; K_while_inline_body; K_with_stmt;
    K_match_stmt; K_class_def; K_async_def; K_decorator;
-   K_continue_in_while; K_continue_in_for; K_continue_outside_loop; K_while_else;
-   K_for_else; K_for_over_list; K_for_over_name; K_try_finally;
-   K_try_except_else].
+   K_while_else; K_for_else; K_for_over_list; K_for_over_name;
+   K_try_finally; K_try_except_else].
+(* `continue` (K_continue_in_while, K_continue_in_for, K_continue_outside_loop) was in this list until
+   the repair "fix: translate `continue` instead of silently dropping it"; it is now pinned below. *)
 (* a `def` inside a block / function / the main loop is dropped (at column 0 it is an ordinary function) *)
 Definition gap_pairs : list (stmt_kind * context) :=
   [(K_nested_def, Nested); (K_nested_def, Func); (K_nested_def, MainLoop)].
@@ -248,7 +249,7 @@ Definition complete (t : list row) : bool :=
 
 (* ------------------------------------------------------------ what the supported subset must do *)
 Definition translated_kinds : list stmt_kind :=
-  [K_assign; K_assign_ret_prefix; K_augassign; K_tuple_assign; K_dev_known_method; K_sleep_call; K_bare_expr; K_break_in_while; K_break_in_for; K_for_range_1arg; K_if_stmt; K_while_stmt].
+  [K_assign; K_assign_ret_prefix; K_augassign; K_tuple_assign; K_dev_known_method; K_sleep_call; K_bare_expr; K_break_in_while; K_break_in_for; K_continue_in_while; K_continue_in_for; K_for_range_1arg; K_if_stmt; K_while_stmt].
 Definition pinned (k : stmt_kind) (c : context) : option outcome :=
   if existsb (kind_eqb k) translated_kinds then Some Translated
   else if allowed k then Some Ignored
@@ -256,6 +257,8 @@ Definition pinned (k : stmt_kind) (c : context) : option outcome :=
        | K_return_value, Func | K_return_bare, Func => Some Translated
        | K_return_value, _ | K_return_bare, _ => Some Rejected      (* Python: 'return' outside function *)
        | K_break_outside_loop, _ => Some Rejected                    (* Python: 'break' outside loop; main loop: refused *)
+       | K_continue_outside_loop, MainLoop => Some Translated        (* ends the current pass of loop(): `return;` *)
+       | K_continue_outside_loop, _ => Some Rejected                 (* Python: 'continue' not properly in loop *)
        | K_nested_def, Top => Some Translated
        | _, _ => None
        end.
